@@ -816,6 +816,7 @@ func (r *Run) wellTyped(t Term, typ types.Type, st *State) Term {
 	case *types.Slice:
 		cs := []Term{Le(mkInt(0), slOff(t)), Le(mkInt(0), slLen(t)), Le(slLen(t), slCap(t)),
 			Ge(slBase(t), mkInt(0)),
+			Le(slCap(t), Term{"9223372036854775807", SInt}), // a capacity is an int
 			Implies(Eq(slBase(t), mkInt(0)), And(Eq(slCap(t), mkInt(0)), Eq(slOff(t), mkInt(0))))}
 		if st != nil {
 			cs = append(cs, Le(slBase(t), r.heapGet(st, "$top")))
